@@ -354,7 +354,9 @@ def trees_for(run: Run):
             if "'variable'" not in repr(t) and "'varassign'" not in repr(t)]  # forms that exist for constants too
     return (list(G.depth1(ws, mixed=True, families=FAMILIES))
             + list(G.depth1_const(ws, mixed=True, families=CONST_MIX_FAMILIES)) + conv
-            + list(G._dedup(G.multi_subscripts(quick=not run.thorough))))
+            + list(G._dedup(G.multi_subscripts(quick=not run.thorough)))
+            + list(G._dedup(G.iter_chains(quick=not run.thorough,
+                                          consumers=G.ITER_CONSUMERS if run.thorough else ("reverse", "catnot", "anycomp")))))
 
 
 def main(run: Run):
